@@ -16,6 +16,9 @@ ignored here; floats are the 16 hex digits of their IEEE bits; data row-major, n
   rdelaycol S | nt.. | dflt | name=d .. | pred        _build_per_column_delays + _apply_resample_and_delay_columnwise
   gb        S | label | pat target v.. , .. | pat target v.. , ..     SignalTransform._apply_gains_biases (gains | biases)
 
+The single command-line argument selects the model variant: `hold` (one-sample series are held constant by
+`interpolate`) or `asfound` (they go through interp1d: 0/0).
+
 Output: `ok n m ; t.. ; d..` (a cell `np.empty` never wrote is `uninit`) or `error <kind>`; `bad-op` for
 anything malformed.
 -/
@@ -111,7 +114,7 @@ def parseEntries (sec : String) : Option (List (GBEntry F)) :=
       else none
     | _ => none
 
-def step (line : String) : String :=
+def step (hold : Bool) (line : String) : String :=
   match splitTrim line "|" with
   | hd :: rest =>
     match words (hd.takeWhile (· != ';')).toString with
@@ -125,7 +128,7 @@ def step (line : String) : String :=
         match op, rest with
         | "resample", [nt] =>
           match floats? (words nt) with
-          | some nt => showTS (resample s nt)
+          | some nt => showTS (resample hold s nt)
           | none => "bad-op"
         | "bias", [name, v] =>
           match words name, floats? (words v) with
@@ -137,7 +140,7 @@ def step (line : String) : String :=
           | _, _ => "bad-op"
         | "delay", [name, d] =>
           match words name, floats? (words d) with
-          | [name], some [d] => showTS (applyDelay s name d)
+          | [name], some [d] => showTS (applyDelay hold s name d)
           | _, _ => "bad-op"
         | "window", [b] =>
           match floats? (words b) with
@@ -151,14 +154,14 @@ def step (line : String) : String :=
           match floats? (words nt), floats? (words dflt), parseDelays (words sd), (words pred) with
           | some nt, some [dflt], some sd, [p] =>
             match parseBool p with
-            | some p => showOpt (m := m) (applyResampleAndDelay s nt dflt sd p)
+            | some p => showOpt (m := m) (applyResampleAndDelay hold s nt dflt sd p)
             | none => "bad-op"
           | _, _, _, _ => "bad-op"
         | "rdelaycol", [nt, dflt, sd, pred] =>
           match floats? (words nt), floats? (words dflt), parseDelays (words sd), (words pred) with
           | some nt, some [dflt], some sd, [p] =>
             match parseBool p with
-            | some p => showOpt (m := m) (applyResampleAndDelayColumnwise s nt dflt sd p)
+            | some p => showOpt (m := m) (applyResampleAndDelayColumnwise hold s nt dflt sd p)
             | none => "bad-op"
           | _, _, _, _ => "bad-op"
         | "gb", [label, gains, biases] =>
@@ -169,4 +172,8 @@ def step (line : String) : String :=
         | _, _ => "bad-op"
   | [] => "bad-op"
 
-def main : IO Unit := runStateless step
+def main (args : List String) : IO UInt32 := do
+  match args with
+  | ["hold"] => runStateless (step true); return 0
+  | ["asfound"] => runStateless (step false); return 0
+  | _ => IO.eprintln "usage: drv_c48 hold|asfound"; return 2
